@@ -236,4 +236,60 @@ theorem wrap_panics_every_bufsize (m : Nat) (hm : 0 < m) (k : KeyW) (n : NonceW)
     (run m (mkCipher m k n) wrapOps).2 = some .overflow := by
   rw [history_from_new m hm, wrap_spec_panics]
 
+/-! ## published vectors and concrete instances (non-vacuity; kernel-evaluated) -/
+
+def vecKey : Bytes := [0, 1, 2, 3, 4, 5, 6, 7, 8, 9, 10, 11, 12, 13, 14, 15, 16, 17, 18, 19, 20, 21, 22, 23, 24, 25, 26, 27, 28, 29, 30, 31]
+def vecNonce : Bytes := [0, 0, 0, 9, 0, 0, 0, 74, 0, 0, 0, 0]
+def vecBlock1 : Bytes := [16, 241, 231, 228, 209, 59, 89, 21, 80, 15, 221, 31, 163, 32, 113, 196, 199, 209, 244, 199, 51, 192, 104, 3, 4, 34, 170, 154, 195, 212, 108, 78, 210, 130, 100, 70, 7, 159, 170, 9, 20, 194, 215, 5, 217, 139, 2, 162, 181, 18, 156, 209, 222, 22, 78, 185, 203, 208, 131, 232, 162, 80, 60, 78]
+def vecHNonce : Bytes := [0, 0, 0, 9, 0, 0, 0, 74, 0, 0, 0, 0, 49, 65, 89, 39]
+def vecHOut : Bytes := [130, 65, 59, 66, 39, 178, 123, 254, 211, 14, 66, 80, 138, 135, 125, 115, 160, 249, 228, 213, 138, 116, 168, 83, 193, 46, 196, 19, 38, 211, 236, 220]
+def vecLastBlock : Bytes := [172, 228, 205, 9, 226, 148, 209, 145, 45, 74, 210, 5, 208, 111, 149, 217, 194, 242, 191, 207, 69, 62, 135, 83, 241, 40, 118, 91, 98, 33, 95, 77, 146, 199, 79, 47, 98, 108, 106, 100, 12, 11, 18, 132, 216, 57, 236, 129, 241, 105, 98, 129, 218, 252, 62, 104, 69, 147, 147, 112, 35, 181, 139, 29]
+
+set_option maxRecDepth 100000 in
+/-- RFC 8439 §2.3.2: chacha20_block(00..1f, 1, 00 00 00 09 00 00 00 4a 00 00 00 00) -/
+example : block vecKey 1 vecNonce = vecBlock1 := by decide +kernel
+
+set_option maxRecDepth 100000 in
+/-- the same vector through the Go-shaped code: a cipher with a filled cache at counter 1 writes
+    `0⁶⁴ xor block` (instance of `block_generic_eq_rfc`) -/
+example : xorBlockGo (precomp { mkCipher 1 (keyWords vecKey) (nonceWords vecNonce) with counter := 1 }) (zeros 64) = vecBlock1 := by
+  decide +kernel
+
+set_option maxRecDepth 100000 in
+/-- draft-irtf-cfrg-xchacha §2.2.1: HChaCha20 test vector, specification and Go-shaped function -/
+example : hchacha20 vecKey vecHNonce = vecHOut ∧ hChaCha20Go vecKey vecHNonce = some vecHOut := by decide +kernel
+
+set_option maxRecDepth 100000 in
+/-- the last block of the zero key / zero nonce keystream (the constant of chacha_test.go TestLastBlock),
+    produced by the history SetCounter(2^32−1); XORKeyStream(64 zero bytes); a further byte panics —
+    on the bufSize = 64 and on the bufSize = 256 model -/
+example : run 1 (mkCipher 1 (keyWords (zeros 32)) (nonceWords (zeros 12))) [.setCounter 0xffffffff, .xor (zeros 64), .xor [0]] =
+      ([[], vecLastBlock], some .overflow) ∧
+    run 4 (mkCipher 4 (keyWords (zeros 32)) (nonceWords (zeros 12))) [.setCounter 0xffffffff, .xor (zeros 7), .xor (zeros 57), .xor [0]] =
+      ([[], vecLastBlock.take 7, vecLastBlock.drop 7], some .overflow) := by decide +kernel
+
+/-- instances of the end-to-end theorems: hypotheses are satisfiable (32-byte key, 12- / 24-byte nonce) -/
+example : ∃ c, newCipher 1 vecKey vecNonce = some c ∧
+    run 1 c [.setCounter 1, .xor (zeros 100)] = ([[], xorStream vecKey vecNonce 1 (zeros 100)], none) :=
+  oneshot_rfc8439 1 (by decide) vecKey vecNonce rfl rfl 1 (zeros 100)
+    (by have : (zeros 100).length = 100 := by simp only [zeros, List.length_replicate]
+        rw [this]; decide)
+
+example : ∃ c, newCipher 4 vecKey (vecNonce ++ vecNonce) = some c ∧
+    run 4 c [.setCounter 7, .xor (zeros 300)] =
+      ([[], xorStream (xkey vecKey (vecNonce ++ vecNonce)) (xnonce (vecNonce ++ vecNonce)) 7 (zeros 300)], none) :=
+  oneshot_xchacha 4 (by decide) vecKey (vecNonce ++ vecNonce) rfl rfl 7 (zeros 300)
+    (by have : (zeros 300).length = 300 := by simp only [zeros, List.length_replicate]
+        rw [this]; decide)
+
+/-- instance of `setCounter_panics_iff` / rollback: after 65 bytes the current block is 2, so SetCounter(1) panics
+    and SetCounter(2) does not -/
+example (k : KeyW) (n : NonceW) (b : Bytes) (hb : b.length = 65) :
+    (run 1 (mkCipher 1 k n) [.xor b, .setCounter 1]).2 = some .rollback ∧
+    (run 1 (mkCipher 1 k n) [.xor b, .setCounter 2]).2 = none := by
+  rw [history_from_new 1 (by decide), history_from_new 1 (by decide)]
+  have h := specStep_xor_ok k n 0 b (by simp [hb, limit])
+  simp only [specRun, h, hb]
+  constructor <;> simp [specStep, limit]
+
 end XC.C03
